@@ -112,6 +112,17 @@ CHECKS["C17"] = dict(ref="5/C17", text="ProtDist.tla counts the pair frequency t
     "reordering relations on pairs of real calls (7 models x model/empirical frequencies x gamma x rm-gaps x weights, fragments and masked rows).",
     note="The maximiser is compared with 28 other distances, not with all reals; the eigen-system is observed, its relation to the textbook rate matrix is C18's subject. Trusted: TLC, java.lang.Math, F64 glue.",
     tech="TLA+ specification of the pair likelihood (ProtDist.tla, IEEE doubles via a TLC module override); recorded matrices and eigen-systems validated by TLC (Trace_ProtDist)")
+
+CHECKS["C16"] = dict(ref="5/C16", text="Functional half: Phase.tla states, per result, exactly the property's relations (trimmed nucleotides = substring of the read or of its reverse complement at "
+    "the reported position, codon sequence = suffix at offset 0..2 (0 when translating), amino acids = translation of the codon sequence, a read holding a reference verbatim "
+    "once is cut there in frame 0, one result per read unless an error is reported, inputs unchanged, longest ORF = an ATG..first-in-frame-stop ORF of some read / strand and "
+    "none longer - all ORFs enumerated by the specification in the three frames); reads are mutated ORF copies in random flanks, fragments followed by the whole ORF on either "
+    "strand, 1-2 references or none, translate / reverse / cut-end, three codes, 1..32 workers; TLC validates every event and the equality of the result sets for different "
+    "worker counts. Concurrency half: PhaseConc.tla (feeder, workers, shared failure flag, closer, consumer) model-checked for StreamClosed, FeederFinishes, OneResultEach, "
+    "NoDuplicate, NoSendAfterClose, ErrorSeen with failing reads anywhere; per-goroutine hook logs of free-running runs (incl. reads whose alignment fails) validated by TLC "
+    "as behaviours of the protocol; the same workloads run under the Go race detector.",
+    note="Interleavings are exhaustive in the model for small constants and observed in the code; races are decided by the race detector on the executions that occur.",
+    tech="TLA+ relations (Phase.tla) and protocol specification (PhaseConc.tla) model-checked by TLC; recorded results validated by TLC (Trace_Phase); hook logs of the real goroutines validated against the protocol (Trace_PhaseConc); Go race detector as observation")
 NA = []
 def main():
     props = [json.loads(l)["id"] for l in open(os.path.join(V, "properties.jsonl"))]
